@@ -687,7 +687,7 @@ uint64_t Model::fingerprint() const {
 
 std::string Model::image_key() const {
 	std::string k;
-	for (auto &pp : peers) { const Peer &p = pp.second; if (!p.alive) continue; k += "P" + std::to_string(p.c) + (p.authed ? "a" + p.user : "") + ";"; for (auto &f : p.fetches) k += "F" + f.id.dump() + ";"; }   // (a peer that holds a fetch cannot authenticate again)
+	for (auto &pp : peers) { const Peer &p = pp.second; if (!p.alive) continue; k += "P" + std::to_string(p.c) + (p.authed ? "a" + p.user : "") + ";"; for (auto &f : p.fetches) { k += "F" + f.id.dump() + (f.rule.all ? "*" : f.rule.ci ? "i" : "s"); for (auto &mm : f.rule.ms) { k += mm.name; for (auto &o : mm.ops) k += "," + json_escape(o); } k += "{"; for (auto &rp : f.reported) k += json_escape(rp) + ","; k += "};"; } }   // (a peer that holds a fetch cannot authenticate again)
 	for (auto &kv : elems) { const Elem &e = kv.second; k += "E" + json_escape(e.path) + "#" + std::to_string(e.owner) + (e.is_state ? "s" + e.value.dump() : "m") + (e.fetch_only ? "f" : "") + ";"; for (auto &g : e.fg) k += "g" + g + ";"; }
 	for (auto &u : users) k += "U" + u.first + "=" + u.second.password + ";";
 	return k;
